@@ -25,6 +25,7 @@ type RobustCase struct {
 	Text   string      `json:"text"`
 	Origin string      `json:"origin"` // how the text was produced
 	Knobs  ExecKnobs   `json:"knobs"`
+	Cancel *FaultSpec  `json:"cancel,omitempty"` // the caller's context is cancelled while this driver call is in flight
 }
 
 type robustHarness struct{}
@@ -191,6 +192,10 @@ func (h *robustHarness) Gen(r *Rand, tier string, clean bool) any {
 	u := genUniverse(r, r.Range(3, 9), r.Chance(0.3), false)
 	c := &RobustCase{Knobs: genKnobs(r)}
 	c.Knobs.Memo = r.Chance(0.2)
+	if r.Chance(0.15) {
+		// the client goes away while the statement runs: the caller's context is cancelled during driver call k
+		c.Cancel = &FaultSpec{Call: r.Intn(8), Mode: "cancel", J: r.Intn(3)}
+	}
 	if r.Chance(0.2) {
 		c.Graphs = []GraphData{{Name: "?g0"}, {Name: "?g1"}} // empty store content
 	} else {
@@ -265,15 +270,32 @@ func (h *robustHarness) Shrink(ci any) []any {
 		d.Knobs.Memo, d.Knobs.Pace, d.Knobs.Preempt, d.Knobs.Permute = false, 0, 0, false
 		out = append(out, &d)
 	}
+	if c.Cancel != nil {
+		d := *c
+		d.Cancel = nil
+		out = append(out, &d)
+	}
+	if c.Knobs.CtxAware {
+		d := *c
+		d.Knobs.CtxAware = false
+		out = append(out, &d)
+	}
 	return out
 }
 
 func (h *robustHarness) Run(t *testing.T, ci any) *Outcome {
 	c := ci.(*RobustCase)
 	o := okOutcome()
-	er := execStatement(t, c.Graphs, c.Text, c.Knobs, nil, nil)
+	var faults []FaultSpec
+	if c.Cancel != nil {
+		faults = []FaultSpec{*c.Cancel}
+	}
+	er := execStatement(t, c.Graphs, c.Text, c.Knobs, faults, nil)
 	if er.res == nil {
 		return infra("no result: %s", er.bubble)
+	}
+	for k, n := range er.fired {
+		o.stat("fault_"+k, int64(n))
 	}
 	if er.res.Hazard != "" {
 		return infra("scheduler hazard: %s", er.res.Hazard)
